@@ -230,7 +230,7 @@ def generate(ctx):
         if ctx.mine(n):
             yield 'table', {'Z': key[0], 'A': key[1]}
     # 2. every row on the stratified grid, then log-uniform random points
-    nrandom = ctx.scale(200, 6000)
+    nrandom = ctx.scale(200, 4000)
     for n, row in enumerate(T.rows):
         if not ctx.mine(n):
             continue
